@@ -17,6 +17,8 @@ import numpy as _np
 import z3
 
 INF = float("inf")
+MOD_MODE = os.environ.get("SYMX_MOD", "disj")   # "fork": one path per wrap count; "disj": solver-side case split
+MOD_WINDOW = 4
 
 
 class Abort(BaseException):
@@ -48,8 +50,8 @@ def _vars_of(e):
     """names of the uninterpreted constants occurring in z3 expression e"""
     key = e.get_id()
     hit = _VARS_CACHE.get(key)
-    if hit is not None:
-        return hit
+    if hit is not None and hit[0].eq(e):
+        return hit[1]
     out, seen, stack = set(), set(), [e]
     while stack:
         t = stack.pop()
@@ -64,8 +66,28 @@ def _vars_of(e):
             stack.extend(t.children())
     if len(_VARS_CACHE) > 200000:
         _VARS_CACHE.clear()
-    _VARS_CACHE[key] = frozenset(out)
-    return _VARS_CACHE[key]
+    _VARS_CACHE[key] = (e, frozenset(out))
+    return _VARS_CACHE[key][1]
+
+
+def _is_nonlinear(e):
+    seen, stack = set(), [e]
+    while stack:
+        t = stack.pop()
+        i = t.get_id()
+        if i in seen:
+            continue
+        seen.add(i)
+        k = t.decl().kind() if z3.is_app(t) else None
+        if k == z3.Z3_OP_MUL:
+            if sum(0 if z3.is_rational_value(c) or z3.is_int_value(c) else 1 for c in t.children()) >= 2:
+                return True
+        elif k in (z3.Z3_OP_DIV, z3.Z3_OP_POWER):
+            ch = t.children()
+            if not (z3.is_rational_value(ch[1]) or z3.is_int_value(ch[1])):
+                return True
+        stack.extend(t.children())
+    return False
 
 
 class Ctx:
@@ -80,6 +102,11 @@ class Ctx:
         self.qtimeout_ms = qtimeout_ms
         self.solver = z3.Solver()
         self.solver.set("timeout", qtimeout_ms)
+        self.lsolver = z3.SimpleSolver()          # linear abstraction of the path condition
+        self.lsolver.set("smt.arith.nl", False)
+        self.lsolver.set("timeout", 400)
+        self.decided: dict[int, bool] = {}
+        self.nonlinear = False
         self.model = None
         self.queries = 0
         self.qtime = 0.0
@@ -91,7 +118,7 @@ class Ctx:
         self.covers: dict[str, bool] = {}
         self.unknown_branches = 0
         self.apps: dict[str, list] = {}  # abstraction applications per function
-        self.defcache: set = set()
+        self.defcache: dict = {}
         self.observed: dict = {}
         self.witness = witness or {}
         self.check_defined = True
@@ -108,6 +135,26 @@ class Ctx:
         self.qtime += time.time() - t
         return r
 
+    def feasible(self, extra):
+        """satisfiability of pc ∧ extra: linear abstraction (unsat only), incremental solver, then a fresh
+        non-incremental solver (z3 picks nlsat for QF_NRA there); leaves a model in self.model when sat"""
+        if self._check(self.lsolver, extra) == "unsat":
+            return "unsat"
+        if self.nonlinear:
+            s = z3.Solver()
+            s.set("timeout", self.qtimeout_ms)
+            s.add(*[e.expr for e in self.pc])
+            s.add(extra)
+            r = self._check(s)
+            if r == "sat":
+                self.model = s.model()
+            if r != "unknown":
+                return r
+        r = self._check(self.solver, extra)
+        if r == "sat":
+            self.model = self.solver.model()
+        return r
+
     def fresh(self, name, sort="real"):
         self.nfresh += 1
         nm = f"{name}!{self.nfresh}"
@@ -118,6 +165,9 @@ class Ctx:
         if z3.is_true(expr):
             return
         self.solver.add(expr)
+        self.lsolver.add(expr)
+        if not self.nonlinear and _is_nonlinear(expr):
+            self.nonlinear = True
         self.pc.append(PCEntry(expr, kind, defines, text))
         if self.model is not None:
             try:
@@ -143,11 +193,13 @@ class Ctx:
             return True
         if z3.is_false(cond):
             return False
+        hit = self.decided.get(cond.get_id())
+        if hit is not None and hit[0].eq(cond):
+            return hit[1]
         i = len(self.decisions)
         if i < len(self.prefix):
             val = self.prefix[i]
-            self.decisions.append(val)
-            self.add(cond if val else z3.Not(cond), kind="branch")
+            self._decide(cond, val)
             return val
         # new decision point: which sides are feasible?
         guess = None
@@ -158,35 +210,37 @@ class Ctx:
             except z3.Z3Exception:
                 guess = None
         if guess is None:
-            r = self._check(self.solver, cond)
+            r = self.feasible(cond)
             if r == "sat":
-                self.model = self.solver.model()
                 guess = True
             elif r == "unsat":
                 # only the false side can be feasible (path itself is feasible)
-                self.decisions.append(False)
-                self.add(z3.Not(cond), kind="branch")
+                self._decide(cond, False)
                 return False
             else:
-                r2 = self._check(self.solver, z3.Not(cond))
+                r2 = self.feasible(z3.Not(cond))
                 if r2 == "sat":
-                    self.model = self.solver.model()
                     self.unknown_branches += 1
-                    self.decisions.append(False)
-                    self.add(z3.Not(cond), kind="branch")
+                    self._decide(cond, False)
                     return False
                 raise Abort("unknown", "branch feasibility unknown")
         other = z3.Not(cond) if guess else cond
         saved = self.model
-        r = self._check(self.solver, other)
+        r = self.feasible(other)
         if r == "sat":
             self.worklist.append(self.decisions + [not guess])
         elif r == "unknown":
             self.unknown_branches += 1
         self.model = saved
-        self.decisions.append(guess)
-        self.add(cond if guess else z3.Not(cond), kind="branch")
+        self._decide(cond, guess)
         return guess
+
+    def _decide(self, cond, val):
+        self.decisions.append(val)
+        self.decided[cond.get_id()] = (cond, val)     # the expression is kept alive: ids are reused after GC
+        neg = z3.simplify(z3.Not(cond))
+        self.decided[neg.get_id()] = (neg, not val)
+        self.add(cond if val else neg, kind="branch")
 
     # -- slicing
     def _slice(self, expr):
@@ -620,11 +674,25 @@ class SR:
             # symbolic modulus: must be provably positive
             c.add(mz > 0, kind="assume", text="modulus positive (grid period)")
         x = toz(self)
-        W = 4
-        for k in sorted(range(-W, W + 1), key=abs):
-            if c.branch(z3.And(x >= k * mz, x < (k + 1) * mz)):
-                return SR(z3.simplify(x - k * mz))
-        raise Abort("out_of_bound", "wrap count outside the window of ±4 periods")
+        W = MOD_WINDOW
+        if MOD_MODE == "fork":
+            for k in sorted(range(-W, W + 1), key=abs):
+                if c.branch(z3.And(x >= k * mz, x < (k + 1) * mz)):
+                    return SR(z3.simplify(x - k * mz))
+            raise Abort("out_of_bound", "wrap count outside the window of ±%d periods" % W)
+        # non-forking encoding: w = x - k*m for the k in the window with 0 <= w < m (case split left to the solver)
+        key = ("mod", x.get_id(), mz.get_id())
+        for k_, x_, m_, w_ in c.apps.setdefault("mod", []):
+            if k_ == key and x_.eq(x) and m_.eq(mz):
+                return SR(w_)
+        outside = z3.Or(x < -W * mz, x >= (W + 1) * mz)
+        if c.feasible(outside) != "unsat":
+            raise Abort("out_of_bound", "wrap count may lie outside the window of ±%d periods" % W)
+        w = c.fresh("mod")
+        c.add(z3.And(w >= 0, w < mz, z3.Or(*[w == x - k * mz for k in range(-W, W + 1)])), kind="def",
+              defines=[w.decl().name()])
+        c.apps["mod"].append((key, x, mz, w))
+        return SR(w)
 
     def __rmod__(self, o):
         return SR(o).__mod__(self)
@@ -942,9 +1010,9 @@ def prove_defined(op, cond):
             _def_fail(op, "argument outside the domain (concrete)")
         return
     key = (op, cond.e.get_id())
-    if key in c.defcache:
+    if key in c.defcache and c.defcache[key].eq(cond.e):
         return
-    c.defcache.add(key)
+    c.defcache[key] = cond.e
     prove(f"def:{op}@{_site()}", cond, kind="defined")
     # continue under the assumption that the operation is defined
     c.add(cond.e, kind="branch")
